@@ -1,4 +1,5 @@
 import CnlProofs.Wide
+import CnlModel.WideCmp
 import CnlProofs.WideFloat
 /-!
 # C10 — `cnl::wide_integer` behaves as an N-bit two's-complement integer for any N
@@ -20,6 +21,15 @@ the limb list); `Val f a` says `a` is a well-formed value of format `f` (`n` lim
   unsigned formats; the right-hand sides do not mention `w`.
 * Part 3: the corollary that results do not depend on how a value is split into limbs.
 * Part 4: conversions from/to built-in integers, `numeric_limits`, decimal text, the storage rule.
+* Part 4b: a built-in integer (any type of 8…128 bits, any value, the most negative ones included) on either side of a
+  multi-limb `wide_integer` (`builtin_operand_spec`), with the two routes on which the code does not follow arithmetic
+  on the values refuted from kernel-checked witnesses (`mod_small_unsigned_negative_dividend_refuted`,
+  `signed_builtin_unsigned_wide_refuted`).  Comparisons with a built-in operand are `Cnl.Wide.wideCmp` (C03's theorems).
+  Covered by correspondence only (no theorem): the result *type* of the mixed operators (digits of the wide operand,
+  narrowest type of its width, signed if either operand is — the driver's oracle demands it on every line),
+  `cnl::to_chars` / `to_chars_static` (`Cnl.Wide.toChars`, `toCharsBuf`: the numeral of `operator<<`, failing exactly when
+  the buffer is shorter than the numeral) and `to_chars_capacity` (`toCharsCapacity`: the oracle demands room for the
+  numerals of `lowest()` and `max()`; observed at the digit counts where `Digits·log₁₀2` is within 0.02 of an integer).
 
 Division is **full**, not partial: `knuth_complete` proves that Algorithm D's `q̂` correction (decrement
 loop + one add-back) always suffices — `divChecked` (run the transcription, then check `q·b + r = a ∧ r < b`)
@@ -480,6 +490,67 @@ theorem storage_rule {d : Nat} {t : IntTy} {f : Wide.Fmt} (ht : 1 ≤ t.bits) (h
       have h2 := Nat.mod_lt (m + t.bits - 1) (show t.bits > 0 by omega)
       omega
   · simp [hd] at h
+
+/-! ## Part 4b — a built-in integer on one side of a multi-limb `wide_integer`
+
+`Cnl.Wide.mixArith f g t op left v a` (CnlModel/WideCmp.lean) is `T ⊗ wide_integer` / `wide_integer ⊗ T` for a built-in
+operand `v` of type `t`: `uintwide_t`'s `IntegralType` overloads construct a `uintwide_t` of the wide operand's type from
+`v` and use the member operator; the result type has the digits of the wide operand and is signed if either operand is.
+`builtin_operand_spec` covers every case in which the result type is the wide operand's own type (`g = f`, i.e. not a
+signed built-in next to an unsigned `wide_integer`) and the operator takes the generic route (`takesModSmall = false`): the result is the operator
+on the *values* `v` and `toInt f a`, reduced to `f.N` bits — for every limb width, limb count, built-in type no wider than
+`f.N` bits (all of 8…128 bits are), every value of it, the most negative ones included.
+
+The one other route, `wide % T` for an unsigned `T` no wider than a limb (`modSmall`, an overload of `uintwide_t` that
+returns a limb), is exact for a non-negative dividend by correspondence only; for a **negative** dividend with a
+non-zero remainder it returns `2^w − |rem|` instead of `−|rem|`: `mod_small_unsigned_negative_dividend_refuted`
+(kernel-checked witness `wide_integer<…, int8_t>{-1} % uint8_t{255}`): open finding
+`C10.mod_small_unsigned_builtin_negative_dividend`.
+A signed built-in operand next to an unsigned multi-limb `wide_integer` is computed in the unsigned format and then
+reinterpreted / zero-extended in the signed result type (`signed_builtin_unsigned_wide_refuted`): open finding
+`C10.signed_builtin_unsigned_wide`; the model follows the code (correspondence), the oracle demands arithmetic on the
+values everywhere, and the driver attributes a failure to one of the two classes only where the model of the
+unchanged code itself departs from the demand. -/
+
+/-- `T ⊗ wide` and `wide ⊗ T` (generic route, result type = the wide operand's type): the operator on the values -/
+theorem builtin_operand_spec {f : Wide.Fmt} {t : IntTy} {v : Int} {a : Limbs} (op : BinOp) (left : Bool)
+    (hop : op ≠ .shl ∧ op ≠ .shr) (hw : 1 ≤ f.w) (hn : 1 ≤ f.n) (h4 : 3 ≤ f.w ∨ f.n ≠ 4)
+    (ht : 1 ≤ t.bits) (hb : t.bits ≤ f.N) (hv : t.InRange v) (hfit : wrapTwos f.N f.signed v = v)
+    (hroute : takesModSmall f t op left = false)
+    (ha : Val f a) (hdiv : op = .div ∨ op = .mod → (if left then toInt f a else v) ≠ 0) :
+    ∃ r, mixArith f f t op left v a = .ok r ∧
+      some (toInt f r) = (if left then specBin f.N f.signed op v (toInt f a) else specBin f.N f.signed op (toInt f a) v) := by
+  obtain ⟨_, hwf, hlen⟩ := Conv.fromBuiltin_toNat (f := f) hw hn ht hb hv
+  have hvb : Val f (fromBuiltin f t v) := ⟨hwf, hlen⟩
+  have hval : toInt f (fromBuiltin f t v) = v := by rw [from_builtin hw hn ht hb hv, hfit]
+  cases left with
+  | true =>
+    obtain ⟨r, hr, hs⟩ := binOp_spec (f := f) (a := fromBuiltin f t v) (b := a) op hop hw hn h4 hvb ha (by simpa using hdiv)
+    refine ⟨r, ?_, ?_⟩
+    · simp [mixArith, hroute, hr, Res.map, convTo, bind, Res.bind]
+    · simpa [hval] using hs
+  | false =>
+    obtain ⟨r, hr, hs⟩ := binOp_spec (f := f) (a := a) (b := fromBuiltin f t v) op hop hw hn h4 ha hvb (by simpa [hval] using hdiv)
+    refine ⟨r, ?_, ?_⟩
+    · simp [mixArith, hroute, hr, Res.map, convTo, bind, Res.bind]
+    · simpa [hval] using hs
+
+-- non-vacuity: `INT_MIN / wide{-1}` in a 24-bit stand-in (`int8_t` operand, three 8-bit limbs) is `+128`,
+-- and the hypotheses of `builtin_operand_spec` hold there
+example : (mixArith ⟨8, 3, true⟩ ⟨8, 3, true⟩ i8 .div true (-128) [255, 255, 255]).map (toInt ⟨8, 3, true⟩) = .ok 128 := by decide
+example : wrapTwos 24 true (-128) = -128 ∧ (i8).InRange (-128) ∧ takesModSmall ⟨8, 3, true⟩ i8 .div true = false := by decide
+example : (mixArith ⟨8, 3, true⟩ ⟨8, 3, true⟩ ⟨16, false⟩ .mod false 1000 [249, 255, 255]).map (toInt ⟨8, 3, true⟩) = .ok (-7) := by decide
+
+/-- `negative wide % unsigned T` with `T` no wider than a limb does **not** give the remainder: `-1 % 255` is `255` -/
+theorem mod_small_unsigned_negative_dividend_refuted :
+    (mixArith ⟨8, 3, true⟩ ⟨8, 3, true⟩ ⟨8, false⟩ .mod false 255 [255, 255, 255]).map (toInt ⟨8, 3, true⟩) = .ok 255
+    ∧ specBin 24 true .mod (-1) 255 = some (-1) := by decide
+
+/-- a signed built-in operand next to an unsigned `wide_integer` is converted to the unsigned format first:
+`wide_u{7} / -2` is `0` in the signed result type, not `-3` -/
+theorem signed_builtin_unsigned_wide_refuted :
+    (mixArith ⟨8, 3, false⟩ ⟨8, 4, true⟩ i8 .div false (-2) [7, 0, 0]).map (toInt ⟨8, 4, true⟩) = .ok 0
+    ∧ specBin 32 true .div 7 (-2) = some (-3) := by decide
 
 /-! ## Non-vacuity: concrete instances (3 limbs of 8 bits, signed = a 24-bit integer; 4 limbs of 4 bits) -/
 
